@@ -76,3 +76,38 @@ def selfref_manifest(rec, meta):
             if e['tag'] == 'MANIFEST' and any(c in ('.', '..') for c in e['p']):
                 return True
     return False
+
+
+def compat_tag_duplicates(rec, meta):
+    """F33: the previous Manifest held two entries of different, compatible tags for one path; which tag
+    survives depends on their order.  Matches only if the texts of all variants of the group become equal
+    (as sorted line lists per Manifest) once the TAG of the lines for that path is blanked - and MANIFEST
+    lines, whose digests merely follow, are compared by tag and path only."""
+    inj = (meta or {}).get('inject') or {}
+    if rec.get('kind') != 'canon' or inj.get('kind') != 'tagdup':
+        return False
+    import os
+    from . import fsmodel as fm
+    mfdir = os.path.dirname(inj['mf'])
+    target = inj['path']
+
+    def norm(mp, lines):
+        out = []
+        d = os.path.dirname(mp)
+        for ln in lines:
+            f = ln.split(' ')
+            if len(f) >= 2 and f[0] == 'MANIFEST':
+                out.append('MANIFEST ' + f[1])
+            elif len(f) >= 2 and d == mfdir and fm.unescape(f[1]) == target:
+                out.append(' '.join(['*'] + f[1:]))
+            else:
+                out.append(ln)
+        return sorted(out)
+    texts = [t for t in (meta.get('texts') or []) if t]
+    if len(texts) < 2:
+        return False
+    ref = dict((mp, norm(mp, ls)) for mp, ls in texts[0].items())
+    for t in texts[1:]:
+        if dict((mp, norm(mp, ls)) for mp, ls in t.items()) != ref:
+            return False
+    return True
